@@ -27,15 +27,19 @@ type C15Perm struct {
 
 type C15Case struct {
 	// cookies
-	CookieA    string    `json:"cookie_a"`   // node cookie of the dialling node
-	CookieB    string    `json:"cookie_b"`   // node cookie of the accepting node
-	AcceptorB  string    `json:"acceptor_b"` // acceptor's own cookie ("" = none)
-	RouteA     string    `json:"route_a"`    // cookie of A's static route to B ("" = none)
-	MaxA, MaxB int       `json:"-"`
-	MaxSizeA   int       `json:"max_size_a"`
-	MaxSizeB   int       `json:"max_size_b"`
-	NoSpawnB   bool      `json:"no_spawn_b"` // B's flags forbid remote spawn
-	ExposeA    bool      `json:"expose_a"`   // A exposes its env on remote spawn / application start
+	CookieA    string `json:"cookie_a"`   // node cookie of the dialling node
+	CookieB    string `json:"cookie_b"`   // node cookie of the accepting node
+	AcceptorB  string `json:"acceptor_b"` // acceptor's own cookie ("" = none)
+	RouteA     string `json:"route_a"`    // cookie of A's static route to B ("" = none)
+	MaxA, MaxB int    `json:"-"`
+	MaxSizeA   int    `json:"max_size_a"`
+	MaxSizeB   int    `json:"max_size_b"`
+	NoSpawnB   bool   `json:"no_spawn_b"`   // B's flags forbid remote spawn
+	ExposeA    bool   `json:"expose_a"`     // A exposes its env on remote spawn
+	ExposeAppA bool   `json:"expose_app_a"` // A exposes its env on remote application start (a switch of its own)
+	// SetCookieB: b's node cookie is changed with Network.SetCookie before anybody connects; only
+	// generated when b's acceptor has a cookie of its own, which keeps governing the endpoint
+	SetCookieB string    `json:"set_cookie_b,omitempty"`
 	Pool       int       `json:"pool"`
 	Adversary  string    `json:"adversary"` // "" | silence | garbage | truncated | hugelen | replay-hello | replay-join
 	Perms      []C15Perm `json:"perms"`
@@ -93,6 +97,10 @@ func (c15) Generate(r *simkit.Rand, tier string) any {
 	c.MaxSizeB = simkit.Pick(r, 0, 0, 50000)
 	c.NoSpawnB = r.Chance(0.2)
 	c.ExposeA = r.Bool()
+	c.ExposeAppA = r.Bool()
+	if c.AcceptorB != "" && (len(c.SetAcceptorB) == 0 || c.SetAcceptorB[len(c.SetAcceptorB)-1] != "") && r.Chance(0.3) {
+		c.SetCookieB = simkit.Pick(r, "alpha", "beta", "delta")
+	}
 	c.Adversary = simkit.Pick(r, "", "silence", "garbage", "truncated", "hugelen", "replay-hello", "replay-join", "replay-join", "forge", "forge", "forge-empty", "forge-empty", "forge-long", "trickle", "trickle")
 	c.TLS = r.Chance(0.3)
 	if c.Adversary == "replay-join" {
@@ -127,6 +135,11 @@ func (c15) Shrink(cc any) []any {
 	if c.SetCookieA != "" {
 		n := cloneJSON(c)
 		n.SetCookieA = ""
+		out = append(out, n)
+	}
+	if c.SetCookieB != "" {
+		n := cloneJSON(c)
+		n.SetCookieB = ""
 		out = append(out, n)
 	}
 	return out
@@ -227,7 +240,7 @@ func (c15) Run(e *simkit.Env, cc any) {
 	a := simkit.StartNetNode(e, sn, simkit.NetNodeOptions{Name: "a@h1", Cookie: c.CookieA, PoolSize: c.Pool, MaxMessageSize: c.MaxSizeA,
 		Mod: func(o *gen.NodeOptions) {
 			o.Security.ExposeEnvRemoteSpawn = c.ExposeA
-			o.Security.ExposeEnvRemoteApplicationStart = c.ExposeA
+			o.Security.ExposeEnvRemoteApplicationStart = c.ExposeAppA
 			o.Env = map[gen.Env]any{"SECRET_OF_A": "a-secret"}
 		}})
 	tlsPort := uint16(0)
@@ -266,6 +279,11 @@ func (c15) Run(e *simkit.Env, cc any) {
 			}
 		}
 		e.Probe("acceptor-cookie-changed-at-run-time")
+	}
+	if c.SetCookieB != "" {
+		// the acceptor has a cookie of its own: the node cookie is not what this endpoint asks for
+		b.Network().SetCookie(c.SetCookieB)
+		e.Probe("node-cookie-changed-at-run-time")
 	}
 	if c.SetCookieA != "" {
 		a.Network().SetCookie(c.SetCookieA)
@@ -565,12 +583,16 @@ func (c15) Run(e *simkit.Env, cc any) {
 		return
 	}
 	envSeen := map[gen.PID]bool{}
+	var memberEnv []bool // application members in start order: requester's environment present?
 	var emu sync.Mutex
 	wh := &Hooks{Name: "spawned", Env: e}
 	wh.Init = func(p *Probe, args ...any) error {
 		_, has := p.Env("SECRET_OF_A")
 		emu.Lock()
 		envSeen[p.PID()] = has
+		if p.Name() == "rapp_m" {
+			memberEnv = append(memberEnv, has)
+		}
 		emu.Unlock()
 		return nil
 	}
@@ -676,6 +698,18 @@ func (c15) Run(e *simkit.Env, cc any) {
 				}
 				if err == nil {
 					e.Probe("appstart-allowed")
+					emu.Lock()
+					var has, known bool
+					if len(memberEnv) > 0 {
+						has, known = memberEnv[len(memberEnv)-1], true
+					}
+					memberEnv = nil
+					emu.Unlock()
+					wantEnv := pm.From == "a" && c.ExposeAppA
+					if known && has != wantEnv {
+						e.Fail("C15/env-exposure", "member of the application started for %s: requester's environment present=%v, exposure for remote application start switched on=%v (for remote spawn: %v)", peer, has, wantEnv, c.ExposeA)
+						return
+					}
 					b.ApplicationStop("rapp")
 					e.Settle(time.Second)
 				} else {
